@@ -46,6 +46,10 @@ def qualname(obj):
     return f"{m}.{q}"
 
 
+class StopEarly(Exception):
+    """raised by Check.report once 4 x cap violations have been recorded"""
+
+
 class Check:
     """One run of one property check."""
 
@@ -196,6 +200,9 @@ class Check:
                 return True
         if len(self.violations) >= self.cap_violations:
             self.violations.append((key, what, None))
+            if len(self.violations) >= 4 * self.cap_violations:
+                # a broken tree can make every cell fail: enough has been reported, stop exploring (bounded run time)
+                raise StopEarly(f"{len(self.violations)} violations reported")
             return True
         repdir = os.environ.get("VERIF_REPLAY_DIR") or os.path.join(VERIF, "replays")
         os.makedirs(repdir, exist_ok=True)
